@@ -62,6 +62,16 @@ Theorem C17_parse_render_canonical : forall (pf : bytes -> option N) (rf : N -> 
 Proof. exact parse_render_canonical. Qed.
 Print Assumptions C17_parse_render_canonical.
 
+(* the syntax has no limit on the length of a line: for every n there is a
+   valid record whose canonical rendering is the single line
+   "description: aaa...a" with n+1 letters, and it parses back *)
+Theorem C17_parse_render_any_line_length : forall (pf : bytes -> option N) (rf : N -> bytes) (n : nat),
+  let r := mkChart [] (repeat 97 (S n)) [] [] [] [] [] 0%Z 0 [] in
+  render_canonical rf false [r] = key_name KDescription ++ [58; 32] ++ repeat 97 (S n) ++ [10]
+  /\ parse pf (render_canonical rf false [r]) = POk [r].
+Proof. exact parse_render_any_length. Qed.
+Print Assumptions C17_parse_render_any_line_length.
+
 (* the executable oracle used on the implementation's answers is exact *)
 Theorem C17_roundtrip_oracle : forall rs res, roundtrip_ok rs res = true <-> res = POk rs.
 Proof. exact roundtrip_ok_iff. Qed.
